@@ -362,8 +362,13 @@ pub fn gen_v(rng: &mut Rng, thorough: bool) -> Vec<String> {
     for n in [64000usize, 64001] {
         for s in ["x".repeat(n), format!("{}\u{e9}", "y".repeat(n - 2))] {
             let h = hex(s.as_bytes());
-            for f in ["nonce", "realm", "software", "padding", "username"] { v.push(format!("{} {}", f, h)) }
+            // (not the quoted-string constructors: the model's trimming step uses the quadratic List.rev)
+            for f in ["software", "padding", "username"] { v.push(format!("{} {}", f, h)) }
         }
+    }
+    for n in [2000usize, 5000] {
+        let h = hex(format!(" \"{}\u{e9}\" ", "z".repeat(n)).as_bytes());
+        for f in ["nonce", "realm"] { v.push(format!("{} {}", f, h)) }
     }
     // byte arrays: every length 0..40 for every fixed-size conversion, and random contents of the right length
     for f in ["hdr", "fp", "mi", "sha", "token", "txid", "magic", "mtbytes"] {
